@@ -2,7 +2,7 @@
 from vlib import oracles, reharness
 from vlib.harness import Harness, register
 
-PLANS_Q = ["scan2", "bare", "cleanup", "staged_monitor", "nested_runs", "flymon"]
+PLANS_Q = ["scan2", "bare", "cleanup", "staged_monitor", "nested_runs", "flymon", "declared"]
 PLANS_T = PLANS_Q + ["count2", "fly1", "scan3", "rel_scan2", "list_scan2", "grid2x2", "adaptive", "tune"]
 
 
